@@ -223,6 +223,9 @@ pub fn render_json(f: &AFilter, explicit: bool) -> Value {
     if explicit || f.not {
         o.insert("not".into(), json!(f.not));
     }
+    if explicit && f.kind % 2 == 1 {
+        o.insert("atLoadTime".into(), json!(true)); // a flag for the user interface, no criterion
+    }
     for (name, c) in [("ecu", &f.ecu), ("apid", &f.apid), ("ctid", &f.ctid)] {
         if c.k != "none" {
             o.insert(name.into(), json!(id_str(&id_syn(c))));
@@ -421,6 +424,13 @@ pub fn build_api(f: &AFilter) -> Result<Filter, String> {
     let id = |c: &IdCrit| -> Result<Option<Char4OrRegex>, String> {
         if c.k == "none" {
             Ok(None)
+        } else if c.k == "lit" && c.w.len() == 4 {
+            // a complete id through `From<DltChar4>`
+            let b: Vec<u8> = c.w.iter().map(|t| id_char(*t) as u8).collect();
+            Ok(Some(DltChar4::from_buf(&b).into()))
+        } else if c.k == "re" && f.kind % 2 == 1 {
+            // a compiled regex through `From<regex::bytes::Regex>`
+            regex::bytes::Regex::new(&id_str(&id_syn(c))).map(|r| Some(r.into())).map_err(|e| format!("{:?}", e))
         } else {
             Char4OrRegex::from_str(&id_str(&id_syn(c)), c.k == "re").map(Some).map_err(|e| format!("{:?}", e))
         }
@@ -568,6 +578,7 @@ pub fn gen_filter(rng: &mut Rng, fe: &str, nchars: u64) -> AFilter {
         return f;
     }
     f.enabled = !rng.chance(1, 10);
+    f.kind = rng.below(4) as u32;
     f.not = !(dlf || fe == "api") && rng.chance(1, 3);
     loop {
         f.ecu = if rng.chance(1, 2) { gen_id(rng, nchars, dlf, 5, auto) } else { no_id() };
